@@ -150,7 +150,7 @@ class Proc:
         self.p = subprocess.Popen(argv, cwd=cwd, env=e, stdin=subprocess.PIPE, stdout=subprocess.PIPE,
                                   stderr=subprocess.PIPE, start_new_session=True)
 
-    def wait_ready(self, timeout=20):
+    def wait_ready(self, timeout=90):
         fd = self.p.stdout.fileno()
         buf = b""
         end = time.time() + timeout
@@ -169,7 +169,7 @@ class Proc:
                 buf += b
         self.pre = buf.split(b"READY\n", 1)[1]
 
-    def release(self, timeout=30):
+    def release(self, timeout=120):
         try:
             out, err = self.p.communicate(b"x", timeout=timeout)
         except subprocess.TimeoutExpired:
@@ -234,7 +234,7 @@ class C21(Check):
         cmd = ["gcc", "-B" + tools.bdir("wild"), *flags, "main.o", *objs, "-o", out] + [f"-Wl,{e}" for e in extra]
         env = dict(os.environ)
         env["WILD_VALIDATE_OUTPUT"] = "0"
-        return hist.run_all(cmd, cwd=w, env=env, timeout=120)
+        return hist.run_all(cmd, cwd=w, env=env, timeout=300)
 
     def run_case(self, case, ctx):
         w = os.path.join(ctx.dir, "w")
